@@ -20,6 +20,9 @@ CHECKS = {
  "C16": ("exploration", "property-based testing: generated key material and bidirectional message histories against an independent MS-NLMP seal/unseal model; exhaustive single-bit flips, truncations and extensions",
          "Every gss_wrapex output in a history is compared byte for byte with an independent implementation pinned by the MS-NLMP 4.2.4 vectors; reference-server messages must unseal; every single-bit flip / truncation / extension of every server message of a set of histories must be rejected.",
          "Trusted: refimpl::crypto (own RC4 + RustCrypto md5/hmac pinned by RFC vectors and MS-NLMP 4.2.4.4).", "DESIGN §6 C16"),
+ "C18": ("exploration", "property-based testing: generated message shapes with a mirror-tree reference serializer (round-trip + exact consumption), bounded-exhaustive PER domains, generated ASN.1 trees against a reference DER/BER codec, reference T.124 encoder/decoder differential",
+         "PER lengths 0..0x7fff and all u16 integers exhaustively (all u32 in thorough), offset/minimum lattice, OID lattice incl. one-element-differs negatives, octet strings at every length boundary; hundreds of thousands of generated message shapes (Size, SkipField, Option, Array, Check) checked for length()==bytes, to_vec==reference bytes, read-back of every leaf and sentinel left unread; ASN.1 trees (MCS/CredSSP shapes) to_der==reference DER and from_der/from_ber of short/long forms; GCC request for every user-data length 0..3000 through a strict T.124 decoder and generated server responses through read_conference_create_response.",
+         "Trusted: refimpl per/der/gcc codecs (written from the specifications; pinned by the repository's own captured vectors). Preconditions from callers are built into the shape generator (bounded arrays/options, non-empty array elements).", "DESIGN §6 C18"),
 }
 NOT_YET = "check not built yet in this session (machinery under construction; see DESIGN.md §10 build order)"
 def main():
